@@ -764,8 +764,8 @@ def run(prog, rep, tier):
         raise AnalysisError('OPTIONS-readonly: calls handing option entries to methods not found')
     rep.rule('RESUME-empty-stats', 'reads of the last statistics entry reachable from '
              'stopping_criterion() before the first iteration are dominated by an emptiness test')
-    if check_empty_stats(prog, rep) < 6:
-        raise AnalysisError('RESUME-empty-stats: fewer than 6 last-entry reads in is_converged')
+    if check_empty_stats(prog, rep) < 2:
+        raise AnalysisError('RESUME-empty-stats: last-entry reads in is_converged not found')
     rep.rule('RESUME-accumulators', 'attributes an algorithm accumulates over its run (sweeps, '
              'evolved_time, trunc_err) are stored by get_resume_data')
     if check_resume_accumulators(prog, rep) < 8:
@@ -1277,6 +1277,10 @@ def check_empty_stats(prog, rep):
             if f is None or id(f) in seen:
                 continue
             seen.add(id(f))
+            try:
+                f = inline_temps(f, aliases_only=True)   # `stats = self.sweep_stats`
+            except Exception:
+                pass
             reads = []
             for st in stmts_of(f):
                 if isinstance(st, (ast.If, ast.For, ast.While, ast.Try, ast.With)):
